@@ -124,6 +124,13 @@ func genC03(t *rapid.T) any {
 	}
 	c := &C03Case{Doc: map[string]any{"t": rows}}
 	c.GoTypes = genGoTypes(t, append(append([]Col{}, sch.groupCols...), sch.valCols...), "gotypes")
+	for _, gc := range sch.groupCols {
+		// grouping keys that float64 cannot tell apart (WHERE / HAVING constants are small numbers: only when
+		// neither mentions the column)
+		if gc.Kind == "int" && rapid.IntRange(0, 5).Draw(t, "gotypes.big."+gc.Name) == 0 {
+			c.GoTypes[gc.Name] = rapid.SampledFrom([]string{"bigint64", "biguint64"}).Draw(t, "gotypes.bigtype."+gc.Name)
+		}
+	}
 	c.Shape = rapid.SampledFrom([]string{"group", "group", "group", "whole", "whole", "groupagg"}).Draw(t, "shape")
 	// aggregates
 	na := rapid.IntRange(1, 5).Draw(t, "naggs")
@@ -188,13 +195,51 @@ func genC03(t *rapid.T) any {
 	if rapid.IntRange(0, 3).Draw(t, "haslimit") == 0 {
 		c.Limit = rapid.IntRange(1, 4).Draw(t, "limit")
 	}
+	for _, e := range []*sq.E{c.Where, c.Having} {
+		if e != nil {
+			e.Walk(func(x *sq.E) {
+				if x.K == "col" && strings.HasPrefix(c.GoTypes[x.S], "big") {
+					delete(c.GoTypes, x.S) // compared with a small constant: keep the column as it is
+				}
+			})
+		}
+	}
+	for _, a := range c.Aggs {
+		if strings.HasPrefix(c.GoTypes[a.Col], "big") {
+			delete(c.GoTypes, a.Col) // aggregated: SUM / AVG of such values is a different matter
+		}
+	}
 	c.SQL = renderC03(c)
 	return c
 }
 
 func genHaving(t *rapid.T, sch *c03Schema, groupCols []string, depth int, label string) *sq.E {
 	if depth <= 0 || rapid.IntRange(0, 2).Draw(t, label+".leaf") == 0 {
-		switch rapid.IntRange(0, 3).Draw(t, label+".atom") {
+		switch rapid.IntRange(0, 7).Draw(t, label+".atom") {
+		case 4:
+			// aggregates below nodes other than a plain comparison
+			lo := rapid.IntRange(0, 3).Draw(t, label+".lo")
+			return sq.Between(rapid.Bool().Draw(t, label+".notbtw"), sq.Call("COUNT", sq.Raw("*")), sq.Num(float64(lo)), sq.Num(float64(lo+rapid.IntRange(0, 2).Draw(t, label+".span"))))
+		case 5:
+			vc := sch.valCols[len(sch.valCols)-1]
+			fn := rapid.SampledFrom([]string{"SUM", "MIN", "MAX"}).Draw(t, label+".fn")
+			return sq.Is(rapid.SampledFrom([]string{"null", "notnull"}).Draw(t, label+".isop"), sq.Call(fn, sq.Col(vc.Name)))
+		case 6:
+			fn := rapid.SampledFrom([]string{"SUM", "MIN", "MAX"}).Draw(t, label+".fn")
+			c1 := rapid.SampledFrom([]float64{-3, 0, 1, 2, 4, 10}).Draw(t, label+".c1")
+			c2 := rapid.SampledFrom([]float64{-1.5, 1, 2.5, 5}).Draw(t, label+".c2")
+			return sq.In(rapid.Bool().Draw(t, label+".notin"), sq.Call(fn, sq.Col(sch.valCols[0].Name)), sq.Num(c1), sq.Num(c2))
+		case 7:
+			fn := rapid.SampledFrom([]string{"SUM", "MIN", "MAX", "AVG"}).Draw(t, label+".fn")
+			agg := sq.Call(fn, sq.Col(sch.valCols[0].Name))
+			var lhs *sq.E
+			if rapid.Bool().Draw(t, label+".neg") {
+				lhs = sq.Neg(agg)
+			} else {
+				// (COUNT yields a Go int, which the engine's arithmetic rejects - outside the statement; constants only)
+				lhs = sq.Bin(rapid.SampledFrom([]string{"+", "*", "-"}).Draw(t, label+".aop"), agg, sq.Num(rapid.SampledFrom([]float64{1, 2, 0.5}).Draw(t, label+".ac")))
+			}
+			return sq.Cmp(rapid.SampledFrom(cmpOps).Draw(t, label+".op"), lhs, sq.Num(rapid.SampledFrom([]float64{-2, 0, 1, 3, 6}).Draw(t, label+".c")))
 		case 0:
 			return sq.Cmp(rapid.SampledFrom(cmpOps).Draw(t, label+".op"), sq.Call("COUNT", sq.Raw("*")), sq.Num(float64(rapid.IntRange(0, 4).Draw(t, label+".n"))))
 		case 1:
@@ -467,7 +512,7 @@ func checkC03(c *C03Case) Result {
 
 	var first []any
 	for i := 0; i < 3; i++ {
-		out := c.Env.Exec(typedDoc(c.Doc, map[string]map[string]string{"t": c.GoTypes}), c.SQL)
+		out := c.exec(c.SQL)
 		res.Execs++
 		if !out.OK() {
 			res.Violation = fmt.Sprintf("%s\n  expected rows %s\n  got %s", c.SQL, val.JSON(want), out.Describe())
@@ -493,8 +538,8 @@ func checkC03(c *C03Case) Result {
 		gsql := csql + " GROUP BY " + strings.Join(c.GroupCols, ", ")
 		// grouped query needs a non-aggregate item unless shape groupagg is supported; use keys
 		gsql = strings.Replace(gsql, "SELECT COUNT(*) AS n", "SELECT "+c.GroupCols[0]+", COUNT(*) AS n", 1)
-		tot := c.Env.Exec(typedDoc(c.Doc, map[string]map[string]string{"t": c.GoTypes}), csql)
-		grp := c.Env.Exec(typedDoc(c.Doc, map[string]map[string]string{"t": c.GoTypes}), gsql)
+		tot := c.exec(csql)
+		grp := c.exec(gsql)
 		res.Execs += 2
 		if !tot.OK() || !grp.OK() || len(tot.Rows) != 1 {
 			res.Violation = fmt.Sprintf("conservation queries failed: %s -> %s ; %s -> %s", csql, tot.Describe(), gsql, grp.Describe())
@@ -513,4 +558,17 @@ func checkC03(c *C03Case) Result {
 		res.Labels = append(res.Labels, "conservation-checked")
 	}
 	return res
+}
+
+// exec runs one statement of the case on a typed copy of the document; integers handed over beyond 2^53
+// are mapped back to the small numbers of the case before the result is normalised.
+func (c *C03Case) exec(sql string) Out {
+	out := c.Env.Exec(typedDoc(c.Doc, map[string]map[string]string{"t": c.GoTypes}), sql)
+	for _, typ := range c.GoTypes {
+		if strings.HasPrefix(typ, "big") && out.OK() {
+			out.Rows = val.NormRows(unbig(out.Raw).([]any))
+			break
+		}
+	}
+	return out
 }
